@@ -208,6 +208,8 @@ class Report:
                 continue
             n = r.get('n', 1)
             self.evaluations += n - 1 if n > 1 else 0
+            if isinstance(r.get('spec'), dict) and r['spec'].get('stratum'):
+                self.add_class_case(r['spec']['stratum'])
             feats = r.get('features')
             if feats is not None:
                 for f in feats:
